@@ -161,6 +161,11 @@ async fn run_c15(sc: &Value) -> Value {
             Ok(mut t) => {
                 let hb = header_bytes(hdr, src, run.port);
                 if !hb.is_empty() {
+                    // every other connection with a header: the header and the client's first frames leave in ONE segment
+                    if conns.len() % 2 == 1 {
+                        t.cork();
+                        rec["coalesced"] = json!(true);
+                    }
                     let _ = t.send_raw(&hb).await;
                 }
                 if c["kind"] == "login" {
